@@ -21,7 +21,7 @@ if ! git -C "$W" apply "$DST/patch.diff"; then echo "$ID PATCH-FAILED"; git -C /
 /venv/bin/python -m compileall -q "$W/strawberryfields" > /dev/null; comp=$?
 SF_REPO="$W" PYTHONPATH="$W" timeout 900 /venv/bin/python "$DST/demo.py" > "$W/.demo_with.log" 2>&1; dw=$?
 # the property's check on the changed tree
-out=$(SF_REPO="$W" VERIF_NO_GATE=1 VERIF_OUT_DIR="$W/.verif_out" /verif/check $P --tier quick 2>&1); rc=$?
+out=$(SF_REPO="$W" VERIF_NO_GATE=1 VERIF_BUDGET_S=3000 VERIF_OUT_DIR="$W/.verif_out" /verif/check $P --tier quick 2>&1); rc=$?
 sigs=$(echo "$out" | grep '  signature:' | sed 's/  signature: //' | head -8 | tr '\n' ';')
 # the repository's own suite on the changed tree
 ( cd "$W" && PYTHONPATH="$W" timeout 7200 /venv/bin/python -m pytest -q -p no:cacheprovider --timeout=900 --continue-on-collection-errors -n $NP --junitxml="$W/.junit.xml" tests > "$W/.suite.log" 2>&1 )
